@@ -24,6 +24,8 @@ Proof. unfold blen. intros H. rewrite skipn_length. lia. Qed.
 Lemma blen_nil_iff (a : bytes) : blen a = 0 <-> a = [].
 Proof. unfold blen. destruct a; simpl; split; intros; try reflexivity; try discriminate; lia. Qed.
 
+Ltac pinj H := apply pair_equal_spec in H; destruct H as [? ?]; subst.
+
 (* ---------------- the buffered writer preserves the byte stream and bounds the records ---------------- *)
 Definition w_all (w : wst) : bytes := concat (snd w) ++ fst w.
 Definition rec_ok (c : bytes) : Prop := 0 < blen c <= MAXW.
@@ -32,10 +34,10 @@ Definition w_ok (w : wst) : Prop := blen (fst w) <= MAXW /\ Forall rec_ok (snd w
 Lemma split_full_concat fuel : forall s recs rem, split_full fuel s = (recs, rem) -> concat recs ++ rem = s.
 Proof.
   induction fuel as [|f IH]; intros s recs rem H; cbn [split_full] in H.
-  - destruct (blen s <=? MAXW); inversion H; reflexivity.
-  - destruct (blen s <=? MAXW); [inversion H; reflexivity|].
+  - destruct (blen s <=? MAXW); pinj H; reflexivity.
+  - destruct (blen s <=? MAXW); [pinj H; reflexivity|].
     destruct (split_full f (skipn (Z.to_nat MAXW) s)) as [r1 m1] eqn:E.
-    inversion H; subst. simpl. rewrite <- app_assoc. rewrite (IH _ _ _ E). apply firstn_skipn.
+    pinj H. cbn [concat]. rewrite <- app_assoc. rewrite (IH _ _ _ E). apply firstn_skipn.
 Qed.
 
 Lemma split_full_ok fuel : forall s recs rem,
@@ -44,10 +46,10 @@ Lemma split_full_ok fuel : forall s recs rem,
 Proof.
   unfold rec_ok.
   induction fuel as [|f IH]; intros s recs rem H Hb; cbn [split_full] in H.
-  - destruct (blen s <=? MAXW) eqn:E; inversion H; subst; split; try constructor; unfold MAXW in *; lia.
-  - destruct (blen s <=? MAXW) eqn:E; [inversion H; subst; split; [lia|constructor]|].
+  - destruct (blen s <=? MAXW) eqn:E; pinj H; split; try constructor; unfold MAXW in *; lia.
+  - destruct (blen s <=? MAXW) eqn:E; [pinj H; split; [lia|constructor]|].
     destruct (split_full f (skipn (Z.to_nat MAXW) s)) as [r1 m1] eqn:E1.
-    inversion H; subst. 
+    pinj H.
     assert (Hs : blen (skipn (Z.to_nat MAXW) s) = blen s - MAXW) by (apply blen_skipn; unfold MAXW in *; lia).
     destruct (IH _ _ _ E1) as [H1 H2]; [rewrite Hs; unfold MAXW in *; lia|].
     split; [exact H1|]. constructor; [|exact H2].
@@ -66,21 +68,21 @@ Qed.
 Lemma w_write_all w s : w_all (w_write w s) = w_all w ++ s.
 Proof.
   destruct w as [buf out]. unfold w_write, w_all. 
-  destruct (blen s <=? MAXW - blen buf) eqn:E; simpl.
+  destruct (blen s <=? MAXW - blen buf) eqn:E; cbn [fst snd].
   - rewrite app_assoc. reflexivity.
-  - destruct (split_full (fuel_for s) (skipn (Z.to_nat (MAXW - blen buf)) s)) as [recs rem] eqn:E1. simpl.
+  - destruct (split_full (fuel_for s) (skipn (Z.to_nat (MAXW - blen buf)) s)) as [recs rem] eqn:E1. cbn [fst snd].
     apply split_full_concat in E1.
-    rewrite !concat_app. simpl. rewrite app_nil_r. rewrite <- !app_assoc. f_equal. f_equal.
+    rewrite !concat_app. cbn [concat]. rewrite app_nil_r. rewrite <- !app_assoc. f_equal. f_equal.
     rewrite E1. apply firstn_skipn.
 Qed.
 
 Lemma w_write_ok w s : w_ok w -> w_ok (w_write w s).
 Proof.
-  destruct w as [buf out]. unfold w_ok, w_write. simpl. intros [Hb Ho].
+  destruct w as [buf out]. unfold w_ok, w_write. cbn [fst snd]. intros [Hb Ho].
   pose proof (blen_nonneg buf) as Hn. pose proof (blen_nonneg s) as Hs.
-  destruct (blen s <=? MAXW - blen buf) eqn:E; simpl.
+  destruct (blen s <=? MAXW - blen buf) eqn:E; cbn [fst snd].
   - split; [rewrite blen_app; lia|exact Ho].
-  - destruct (split_full (fuel_for s) (skipn (Z.to_nat (MAXW - blen buf)) s)) as [recs rem] eqn:E1. simpl.
+  - destruct (split_full (fuel_for s) (skipn (Z.to_nat (MAXW - blen buf)) s)) as [recs rem] eqn:E1. cbn [fst snd].
     assert (Hsk : blen (skipn (Z.to_nat (MAXW - blen buf)) s) = blen s - (MAXW - blen buf)) by (apply blen_skipn; lia).
     destruct (split_full_ok _ _ _ _ E1) as [H1 H2].
     { rewrite Hsk. pose proof (fuel_for_enough s). unfold MAXW in *. lia. }
@@ -96,7 +98,7 @@ Qed.
 Lemma w_flush_ok w : w_ok w -> w_ok (w_flush w) /\ fst (w_flush w) = [].
 Proof.
   destruct w as [buf out]. unfold w_ok, w_flush. simpl. intros [Hb Ho].
-  destruct buf as [|b buf]; simpl; [split; [split; [unfold MAXW; lia|exact Ho]|reflexivity]|].
+  destruct buf as [|b buf]; simpl; [split; [split; [unfold blen, MAXW; simpl; lia|exact Ho]|reflexivity]|].
   split; [|reflexivity]. split; [unfold blen, MAXW; simpl; lia|].
   apply Forall_app. split; [exact Ho|]. constructor; [|constructor].
   unfold rec_ok. split; [unfold blen; simpl; lia|exact Hb].
@@ -164,4 +166,225 @@ Lemma stdin_records_shape body : exists recs,
 Proof.
   unfold stdin_records. exists (chunks (fuel_for body) body). split; [reflexivity|].
   apply chunks_shape. apply fuel_for_enough.
+Qed.
+
+(* ---------------- records written by the client decode with the specification's record decoder ---------------- *)
+Lemma clen_roundtrip len : 0 <= len <= 65535 -> (len / 256) mod 256 * 256 + len mod 256 = len.
+Proof.
+  intros H. pose proof (Z.div_mod len 256 ltac:(lia)) as H1. pose proof (Z.mod_pos_bound len 256 ltac:(lia)) as H2.
+  rewrite (Z.mod_small (len / 256)); [lia|]. split; [apply Z.div_pos; lia|apply Z.div_lt_upper_bound; lia].
+Qed.
+Lemma pad_of_bound len : 0 <= pad_of len < 8.
+Proof. unfold pad_of. apply Z.mod_pos_bound. lia. Qed.
+
+Lemma blen_cons8 (a b c d e f g h : Z) (r : bytes) : blen (a :: b :: c :: d :: e :: f :: g :: h :: r) = 8 + blen r.
+Proof. unfold blen. cbn [length]. lia. Qed.
+
+Lemma dec_records_step f t i1 i0 c1 c0 p r rest :
+  c1 * 256 + c0 + p <= blen rest ->
+  dec_records (S f) (1 :: t :: i1 :: i0 :: c1 :: c0 :: p :: r :: rest) =
+  (let '(l, ok) := dec_records f (skipn (Z.to_nat (c1 * 256 + c0 + p)) rest) in
+   (mkRec t (i1 * 256 + i0) (firstn (Z.to_nat (c1 * 256 + c0)) rest) :: l, ok)).
+Proof.
+  intros H. cbn [dec_records nth skipn]. rewrite blen_cons8.
+  pose proof (blen_nonneg rest) as Hn.
+  replace (8 + blen rest <? 8) with false by lia.
+  replace (1 =? 1) with true by reflexivity. cbn [negb].
+  replace (blen rest <? c1 * 256 + c0 + p) with false by lia. reflexivity.
+Qed.
+
+Lemma blen_repeat0 n : blen (repeat 0 n) = Z.of_nat n.
+Proof. unfold blen. rewrite repeat_length. reflexivity. Qed.
+
+Lemma skipn_app_exact (a b : bytes) n : skipn (length a + n) (a ++ b) = skipn n b.
+Proof. induction a as [|x a IH]; [reflexivity|]. cbn [length plus app skipn]. exact IH. Qed.
+Lemma firstn_app_exact (a b : bytes) : firstn (length a) (a ++ b) = a.
+Proof. induction a as [|x a IH]; [reflexivity|]. cbn [length app firstn]. rewrite IH. reflexivity. Qed.
+Lemma skipn_repeat_app n (s : bytes) : skipn n (repeat 0 n ++ s) = s.
+Proof. induction n as [|n IH]; [reflexivity|]. cbn [repeat app skipn]. exact IH. Qed.
+
+Lemma dec_records_enc_one f typ c s : blen c <= 65535 ->
+  dec_records (S f) (enc_record typ c ++ s) =
+  (let '(l, ok) := dec_records f s in (mkRec typ 1 c :: l, ok)).
+Proof.
+  intros Hc. unfold enc_record. pose proof (blen_nonneg c) as Hn. pose proof (pad_of_bound (blen c)) as Hp.
+  cbn [app]. rewrite <- app_assoc.
+  rewrite dec_records_step.
+  - rewrite clen_roundtrip by lia.
+    assert (E1 : Z.to_nat (blen c + pad_of (blen c)) = (length c + Z.to_nat (pad_of (blen c)))%nat) by (unfold blen in *; lia).
+    assert (E2 : Z.to_nat (blen c) = length c) by (unfold blen; lia).
+    rewrite E1, E2, skipn_app_exact, skipn_repeat_app, firstn_app_exact. reflexivity.
+  - rewrite clen_roundtrip by lia. rewrite !blen_app, blen_repeat0. pose proof (blen_nonneg s). lia.
+Qed.
+
+Definition mk_recs (typ : Z) (cs : list bytes) : list frec := map (fun c => mkRec typ 1 c) cs.
+
+Lemma dec_records_enc_list typ cs : Forall (fun c => blen c <= 65535) cs -> forall f s,
+  dec_records (length cs + f) (concat (map (enc_record typ) cs) ++ s) =
+  (let '(l, ok) := dec_records f s in (mk_recs typ cs ++ l, ok)).
+Proof.
+  induction 1 as [|c cs Hc _ IH]; intros f s.
+  - cbn [length map concat app plus mk_recs]. destruct (dec_records f s); reflexivity.
+  - cbn [length map concat plus mk_recs]. rewrite <- app_assoc. rewrite dec_records_enc_one by exact Hc.
+    rewrite IH. destruct (dec_records f s). reflexivity.
+Qed.
+
+(* a complete decoding is stable under more fuel *)
+Lemma dec_records_mono f : forall s l, dec_records f s = (l, true) -> forall g, (f <= g)%nat -> dec_records g s = (l, true).
+Proof.
+  induction f as [|f IH]; intros s l H g Hg.
+  - cbn [dec_records] in H. discriminate.
+  - destruct g as [|g]; [lia|].
+    destruct s as [|b s]; [exact H|].
+    cbn [dec_records] in *.
+    destruct (blen (b :: s) <? 8); [discriminate|].
+    destruct (negb (nth 0 (b :: s) 0 =? 1)); [discriminate|].
+    destruct (blen (skipn 8 (b :: s)) <? _); [discriminate|].
+    destruct (dec_records f _) as [l' ok'] eqn:E.
+    apply pair_equal_spec in H. destruct H as [H1 H2]. subst ok'.
+    rewrite (IH _ _ E g) by lia. rewrite H1. reflexivity.
+Qed.
+
+Lemma blen_enc_record t c : 8 <= blen (enc_record t c).
+Proof. unfold enc_record. cbn [app]. rewrite blen_cons8. pose proof (blen_nonneg (c ++ repeat 0 (Z.to_nat (pad_of (blen c))))). lia. Qed.
+Lemma blen_enc_records t cs : 8 * Z.of_nat (length cs) <= blen (concat (map (enc_record t) cs)).
+Proof.
+  induction cs as [|c cs IH]; [unfold blen; cbn [length map concat]; lia|].
+  cbn [length map concat]. rewrite blen_app. pose proof (blen_enc_record t c). lia.
+Qed.
+
+(* ---------------- streams ---------------- *)
+Lemma take_stream_ok typ recs rest : Forall rec_ok recs ->
+  take_stream typ (mk_recs typ (recs ++ [[]]) ++ rest) = Some (concat recs, rest).
+Proof.
+  induction 1 as [|c recs Hc _ IH].
+  - cbn [app mk_recs map take_stream f_type f_content]. rewrite Z.eqb_refl. reflexivity.
+  - cbn [app mk_recs map take_stream f_type f_content concat]. rewrite Z.eqb_refl. cbn [negb].
+    destruct c as [|x c]; [unfold rec_ok, blen in Hc; cbn [length] in Hc; lia|].
+    unfold mk_recs in IH. rewrite IH. reflexivity.
+Qed.
+
+(* ---------------- name-value pairs ---------------- *)
+Lemma dec_size_enc n r : 0 <= n < 2^31 -> dec_size (enc_size n ++ r) = Some (n, r).
+Proof.
+  intros H. unfold enc_size. destruct (n <=? 127) eqn:E.
+  - cbn [app dec_size]. replace (n <? 128) with true by lia. reflexivity.
+  - cbn [app dec_size].
+    assert (H1 : 0 <= n / 16777216 < 128) by (split; [apply Z.div_pos; lia|apply Z.div_lt_upper_bound; lia]).
+    rewrite (Z.mod_small (n / 16777216) 128) by lia.
+    replace (n / 16777216 + 128 <? 128) with false by lia.
+    f_equal. f_equal.
+    pose proof (Z.div_mod n 256 ltac:(lia)) as D0. pose proof (Z.mod_pos_bound n 256 ltac:(lia)) as B0.
+    pose proof (Z.div_mod (n / 256) 256 ltac:(lia)) as D1. pose proof (Z.mod_pos_bound (n / 256) 256 ltac:(lia)) as B1.
+    pose proof (Z.div_mod (n / 256 / 256) 256 ltac:(lia)) as D2. pose proof (Z.mod_pos_bound (n / 256 / 256) 256 ltac:(lia)) as B2.
+    rewrite !Z.div_div in D1, D2, B2 by lia. rewrite !Z.div_div in D2 by lia.
+    change (256 * 256) with 65536 in *. change (65536 * 256) with 16777216 in *.
+    lia.
+Qed.
+
+Lemma enc_size_nonempty n : exists b t, enc_size n = b :: t.
+Proof. unfold enc_size. destruct (n <=? 127); eauto. Qed.
+
+Lemma skipn_app_exact0 (a b : bytes) : skipn (length a) (a ++ b) = b.
+Proof. rewrite <- (Nat.add_0_r (length a)). apply skipn_app_exact. Qed.
+
+Lemma dec_pairs_step f k v rest : blen k < 2^31 -> blen v < 2^31 ->
+  dec_pairs (S f) (enc_pair (k, v) ++ rest) =
+  match dec_pairs f rest with None => None | Some l => Some ((k, v) :: l) end.
+Proof.
+  intros Hk Hv. pose proof (blen_nonneg k) as Hk0. pose proof (blen_nonneg v) as Hv0.
+  unfold enc_pair. cbn [fst snd]. rewrite <- !app_assoc.
+  cbn [dec_pairs].
+  destruct (enc_size (blen k) ++ enc_size (blen v) ++ k ++ v ++ rest) as [|b0 s0] eqn:E0.
+  { destruct (enc_size_nonempty (blen k)) as (b & t & E). rewrite E in E0. discriminate. }
+  rewrite <- E0. rewrite dec_size_enc by lia. rewrite dec_size_enc by lia.
+  rewrite !blen_app. pose proof (blen_nonneg rest).
+  replace (blen k + (blen v + blen rest) <? blen k + blen v) with false by lia.
+  assert (E1 : Z.to_nat (blen k + blen v) = (length k + length v)%nat) by (unfold blen; lia).
+  assert (E2 : Z.to_nat (blen k) = length k) by (unfold blen; lia).
+  assert (E3 : Z.to_nat (blen v) = length v) by (unfold blen; lia).
+  rewrite E1, E2, E3, skipn_app_exact, !skipn_app_exact0, !firstn_app_exact. reflexivity.
+Qed.
+
+Definition pairs_wf (ps : list (bytes * bytes)) : Prop :=
+  Forall (fun kv => blen (fst kv) < 2^31 /\ blen (snd kv) < 2^31) ps.
+
+Lemma dec_pairs_enc ps : pairs_wf ps -> forall f, (length ps <= f)%nat ->
+  dec_pairs f (concat (map enc_pair ps)) = Some ps.
+Proof.
+  induction 1 as [|[k v] ps [Hk Hv] _ IH]; intros f Hf.
+  - destruct f; reflexivity.
+  - destruct f as [|f]; [cbn [length] in Hf; lia|].
+    cbn [map concat]. cbn [fst snd] in Hk, Hv. rewrite dec_pairs_step by assumption.
+    rewrite IH by (cbn [length] in Hf; lia). reflexivity.
+Qed.
+
+Lemma pairs_len_le ps : (length ps <= length (concat (map enc_pair ps)))%nat.
+Proof.
+  induction ps as [|[k v] ps IH]; [cbn; lia|].
+  cbn [map concat length]. rewrite app_length. unfold enc_pair at 1. cbn [fst snd]. rewrite app_length.
+  destruct (enc_size_nonempty (blen k)) as (b & t & E). rewrite E. cbn [length]. lia.
+Qed.
+
+Lemma spec_pairs_enc ps : pairs_wf ps -> spec_pairs (concat (map enc_pair ps)) = Some ps.
+Proof. intros H. unfold spec_pairs. apply dec_pairs_enc; [exact H|]. pose proof (pairs_len_le ps). lia. Qed.
+
+(* ---------------- the request round trip ---------------- *)
+Lemma rec_ok_le c : rec_ok c -> blen c <= 65535.
+Proof. unfold rec_ok, MAXW. lia. Qed.
+Lemma Forall_rec_le (l : list bytes) : Forall rec_ok l -> Forall (fun c => blen c <= 65535) (l ++ [[]]).
+Proof.
+  intros H. apply Forall_app. split.
+  - eapply Forall_impl; [|exact H]. intros c. apply rec_ok_le.
+  - constructor; [unfold blen; cbn [length]; lia|constructor].
+Qed.
+Lemma forallb_mk_recs typ cs : forallb (fun r => f_id r =? 1) (mk_recs typ cs) = true.
+Proof. induction cs as [|c cs IH]; [reflexivity|]. cbn [mk_recs map forallb f_id]. exact IH. Qed.
+
+Theorem request_roundtrip ps body : pairs_wf ps -> spec_request (do_written ps body) = Some (ps, body).
+Proof.
+  intros Hwf.
+  destruct (params_records_shape ps) as (P & EP & HP & CP).
+  destruct (stdin_records_shape body) as (S0 & ES & HS & CS).
+  unfold spec_request, spec_records, do_written. rewrite EP, ES.
+  set (w := enc_record T_BEGIN [0; 1; 0; 0; 0; 0; 0; 0] ++
+            concat (map (enc_record T_PARAMS) (P ++ [[]])) ++ concat (map (enc_record T_STDIN) (S0 ++ [[]]))).
+  set (N := S (length (P ++ [[]]) + (length (S0 ++ [[]]) + 1))).
+  assert (HN : dec_records N w =
+               (mkRec T_BEGIN 1 [0; 1; 0; 0; 0; 0; 0; 0] :: mk_recs T_PARAMS (P ++ [[]]) ++ mk_recs T_STDIN (S0 ++ [[]]) ++ [], true)).
+  { unfold N, w. rewrite dec_records_enc_one by (unfold blen; cbn [length]; lia).
+    rewrite dec_records_enc_list by (apply Forall_rec_le; exact HP).
+    rewrite <- (app_nil_r (concat (map (enc_record T_STDIN) (S0 ++ [[]])))).
+    rewrite dec_records_enc_list by (apply Forall_rec_le; exact HS).
+    reflexivity. }
+  rewrite (dec_records_mono N w _ HN).
+  2:{ unfold resp_fuel, N, w. rewrite !blen_app.
+      pose proof (blen_enc_record T_BEGIN [0; 1; 0; 0; 0; 0; 0; 0]) as B1.
+      pose proof (blen_enc_records T_PARAMS (P ++ [[]])) as B2.
+      pose proof (blen_enc_records T_STDIN (S0 ++ [[]])) as B3.
+      set (tot := blen (enc_record T_BEGIN [0; 1; 0; 0; 0; 0; 0; 0]) + (blen (concat (map (enc_record T_PARAMS) (P ++ [[]]))) + blen (concat (map (enc_record T_STDIN) (S0 ++ [[]]))))) in *.
+      assert (H8 : 8 * (1 + Z.of_nat (length (P ++ [[]])) + Z.of_nat (length (S0 ++ [[]]))) <= tot) by (unfold tot; lia).
+      assert (Hd : 1 + Z.of_nat (length (P ++ [[]])) + Z.of_nat (length (S0 ++ [[]])) <= tot / 8) by (apply Z.div_le_lower_bound; lia).
+      lia. }
+  rewrite app_nil_r.
+  cbn [f_type f_content]. replace (T_BEGIN =? T_BEGIN) with true by reflexivity.
+  replace (bytes_eqb [0; 1; 0; 0; 0; 0; 0; 0] [0; 1; 0; 0; 0; 0; 0; 0]) with true by reflexivity.
+  cbn [andb forallb f_id]. rewrite forallb_app, !forallb_mk_recs. cbn [andb].
+  replace (1 =? 1) with true by reflexivity. cbn [andb].
+  rewrite take_stream_ok by exact HP.
+  rewrite <- (app_nil_r (mk_recs T_STDIN (S0 ++ [[]]))).
+  rewrite take_stream_ok by exact HS.
+  rewrite CP, CS, spec_pairs_enc by exact Hwf. reflexivity.
+Qed.
+
+(* every record the client writes carries at most 65500 (< 65535) bytes *)
+Theorem records_bounded ps body :
+  Forall (fun c => blen c <= MAXW) (params_records ps ++ stdin_records body).
+Proof.
+  destruct (params_records_shape ps) as (P & EP & HP & _).
+  destruct (stdin_records_shape body) as (S0 & ES & HS & _).
+  rewrite EP, ES. 
+  assert (Hnil : Forall (fun c : bytes => blen c <= MAXW) [[]]) by (constructor; [unfold blen, MAXW; cbn [length]; lia|constructor]).
+  repeat (apply Forall_app; split); try exact Hnil;
+    (eapply Forall_impl; [|eassumption]; intros c Hc; unfold rec_ok in Hc; lia).
 Qed.
